@@ -206,3 +206,26 @@ def close(a, b, tol=1e-9):
     if a.size == 0:
         return True
     return bool(np.max(np.abs(a - b)) <= tol * max(1.0, float(np.max(np.abs(b)))))
+
+
+# ---------------------------------------------------------------- path helpers
+def run_paths(fn, assumptions=(), max_paths=100000, np_facade=None, extra_globals=None, prefix=''):
+    """explore fn() under the facade; returns (paths, stats)"""
+    assumptions = [a.n if isinstance(a, SB) else a for a in assumptions]
+    with facade.patched(np_facade, extra_globals):
+        return explore.explore(fn, assumptions, max_paths=max_paths, prefix=prefix)
+
+
+def payload_cx(model, arrs, **kw):
+    """JSON payload: each symbolic array as nested [re, im] lists under the model (unassigned variables -> 0)"""
+    out = dict(kw)
+    for key, a in arrs.items():
+        env = model_env(model, [a])
+        v = eval_array(a, env)
+        out[key] = np.stack([np.real(v), np.imag(v)], axis=-1).tolist()
+    return out
+
+
+def from_payload_cx(p, key):
+    a = np.array(p[key], dtype=float)
+    return a[..., 0] + 1j * a[..., 1]
